@@ -250,7 +250,10 @@ CLAIMED["C03"] = dict(
          "orthonormalisation) - exploration, no theorem. Structural clauses: for every enumerated block the proved checker accepts "
          "block(I,J) = transpose of block(J,I) in a real basis, M(no shift) - M(shift) = E(n) delta_IJ, and mvp_block_order = "
          "documented prefactors x block x amplitude vector, each for all Hamiltonians and amplitudes (checkEquiv_sound). "
-         "block_order(0..5) equals n - (level_I + level_J).",
+         "block_order(0..5) equals n - (level_I + level_J). Assembly clause (all Hamiltonians): for the lowest class of pp / ip / ea to "
+         "second order (thorough: + coupling blocks to first order) the derived block is accepted by checkEquiv as equal to sum_{k+a+b+c=n} N(k) "
+         "(<I~(a)|H(b)|J~(c)> - E(b) <I~(a)|J~(c)>) evaluated by the proved Lean Wick model from the code's own operator-level "
+         "intermediate states, H(0), H(1), E(b) and the norm series of recipes.py.",
     note=TB + "Spec level: isr_matrix_selfadjoint (AdcProofs/Props/IsrTranspose.lean) proves the transposition clause for every order at the level of the overlap / precursor-matrix series (any star ring), isr_orthonormal_series the orthonormality; the Lean objects isr_spec / isr_matrix_value (explicit intermediate states) are not built: the tie of the derived expressions to explicit intermediate states is numerical (exact rationals, finitely many models). Trusted: harness/isr_oracle.py, harness/detspace.py. mp partitioning only; orders as enumerated.")
 
 CLAIMED["C05"] = dict(
@@ -263,7 +266,9 @@ CLAIMED["C05"] = dict(
          "built explicitly in determinant space, with x_I = sqrt(n_o! n_v!) X_I (documented normalisation; square roots compared "
          "symbolically) - exploration, no theorem. Structural clause: expec(no shift) - expec(shift) = <d>_gs^(n) sum_I X_I Y_I for "
          "diagonal blocks and 0 for coupling blocks, accepted by checkEquiv for all Hamiltonians, operator matrices and amplitude "
-         "vectors; default operator string per variant.",
+         "vectors; default operator string per variant. Assembly clause (all Hamiltonians, operator matrices, amplitude vectors): "
+         "trans_moment_space of the lowest class of pp / ip / ea to second order is accepted by checkEquiv as equal to X_I sum N(k) "
+         "(<I~(a)|d|psi(c)> - <d>_gs^(b) <I~(a)|psi(c)>) evaluated by the proved Lean Wick model from the code's operator-level intermediate states.",
     note=TB + "No Lean spec of the ISR (see C03). Mixed left/right variants (Properties(l_isr, r_isr) of different ADC variants on one ground state) are covered by two clauses decided by the proved checker: a number-conserving operator has no matrix element between intermediate states of different particle number, and transition moments requested for the left / right ISR equal those of the single-variant object (which the main clause ties to explicit intermediate states). Trusted: harness/isr_oracle.py, harness/detspace.py, the statement of the normalisation. mp partitioning; orders as enumerated.")
 
 PENDING = {
